@@ -214,7 +214,17 @@ fn strip_hashes(s: &str) -> (String, Vec<String>) {
             }
         }
         let payload = &rest[..end];
-        let mut entries: Vec<String> = payload.split(',').map(|x| x.trim().to_string()).collect();
+        // the entries print as "<hash> <> <index>"; keep only those pairs (the decoration around the
+        // first and the last entry depends on the map's iteration order)
+        let mut entries: Vec<String> = payload
+            .split(',')
+            .filter_map(|x| {
+                let (l, r) = x.split_once("<>")?;
+                let hash: String = l.chars().rev().skip_while(|c| !c.is_ascii_digit()).take_while(|c| c.is_ascii_digit()).collect::<String>().chars().rev().collect();
+                let idx: String = r.chars().skip_while(|c| !c.is_ascii_digit()).take_while(|c| c.is_ascii_digit()).collect();
+                Some(format!("{hash} <> {idx}"))
+            })
+            .collect();
         entries.sort();
         (format!("{}<H>{}", &s[..i], &rest[end..]), entries)
     } else {
@@ -244,6 +254,12 @@ pub fn fast_config_valid() -> bool {
         let fast = fast_passes();
         let a = strip_hashes(&format!("{:?}", real.lifting_passes));
         let b = strip_hashes(&format!("{:?}", fast));
+        if std::env::var("VCHECK_DEBUG_TC").is_ok() {
+            eprintln!("real: {}\nfast: {}\nentries equal: {} ({} vs {})", a.0, b.0, a.1 == b.1, a.1.len(), b.1.len());
+            for (x, y) in a.1.iter().zip(b.1.iter()).filter(|(x, y)| x != y).take(3) {
+                eprintln!("  {x}  !=  {y}");
+            }
+        }
         a == b
     })
 }
